@@ -1,5 +1,6 @@
 import PepperProofs.Des
 import PepperProofs.LoadInvDes
+import PepperProofs.LoadInvDesSys
 /-!
 # C03 — the NUPACK `.des` output is constraint-equivalent to the source program
 
@@ -19,7 +20,11 @@ Tie to the code (harness/props/c03.py, every run): an independent reader of the 
 text gives exactly `desDoc` of the model; `BlocksOk` holds for the model's instance tree of every accepted
 program; `designOf inst` is the design `Denote.denoteTop` assigns to the source.
 
-Which hypotheses are discharged by theorem and which remain evaluated per run:
+**The full statement is `des_equiv_of_load`** (no hypothesis on the tables, none on the design): for every
+program `Sys.loadFile` accepts, under name hypotheses on the sources only, the `.des` document and the design the
+*source* denotes (`Denote.denoteFile`) have the same solutions on the program's own domains.  Both missing links
+of the earlier `_partial` statements are discharged by theorem (the driver still evaluates them per run as a
+redundant cross-check):
 * **M1, `BlocksOk (blocksInst inst)` — discharged** (`blocksOk_of_load`, from `PepperProofs/LoadInvDes.lean`): it
   holds for whatever `Sys.loadFile` returns, for bundles satisfying `DesNamesOk`: component sources with user
   names in their statements (`StmtNamesOk`, the statement part of C01's `UserNamesOk`) and pairwise distinct
@@ -32,9 +37,21 @@ Which hypotheses are discharged by theorem and which remain evaluated per run:
 * **M2 for one component — discharged** (`des_equiv_component_of_load`): the document of a loaded component has
   exactly the solutions of the design `Denote.denoteComp` assigns to the *source* (C01's
   `compile_preserves_design` closes the gap between the tables and the source).
-* **M2 for systems — remains a hypothesis** of `des_equiv_of_load_partial` (`designOf inst` has the solutions of
-  the design `Denote.denoteTop` assigns to the source): this is C02's `system_preserves_design`, proved so far
-  as `system_preserves_design_partial`; evaluated per run (`Des.designOf` against `denoteTop`).
+* **M2 for instance trees of any depth — discharged** (`designOf_sat_iff_of_load`, from
+  `PepperProofs/LoadInvDesSys.lean`, `DesSys.tree_sat_iff`): `designOf inst` and the design `Denote.denoteFile`
+  assigns to the source agree on every field `Sat` reads (domains, `equals`, strands, the strand lists and
+  dot-parens of the structures), hence have the same solutions for every code table.  The two walks are followed in
+  lockstep: component leaves by C01 (`compile_preserves` + `emit_sound`), the statement loop appends the
+  instances' designs in order on both sides, and the signal part is C02's agreement of the signal tables
+  (`SysProofs.sys_tables_agree`: same signals, lengths, and per entry the port's region, reverse-complemented
+  exactly when `wc`).  Hypotheses: the names-only part of C02's `bundleOk` (`bundleNamesOk`: `UserNamesOk` for
+  component sources; instance names without `-`, signal names non-empty, not ending in `*`, without `-` for system
+  sources) — no hypothesis on code letters: `Sat` is compared for an arbitrary table.
+* `DesNamesOk b ∧ bundleNamesOk b` follows from the single decidable check `DesSys.desBundleOk b`
+  (`des_equiv_of_load_checked`).
+
+The `_partial` theorems (`des_equiv_partial`: relative to `BlocksOk` and `designOf`; `des_equiv_of_load_partial`:
+M2 as a hypothesis `hM2`, for an arbitrary design `d`) are kept: they are what the full statement is assembled from.
 -/
 namespace Pepper.C03
 open Pepper Pepper.Comp Pepper.Sys Pepper.LinkSpec Pepper.Des
@@ -158,9 +175,10 @@ theorem des_no_more (inst : Inst) (ok : BlocksOk (blocksInst inst)) (tbl : CodeT
     Missing, exactly: (M1) `Sys.loadFile … = .ok (inst, _) → BlocksOk (blocksInst inst)` (an invariant of
     `Comp.addStmt` / `Sys.loadStmts`; the name clauses need that instance and signal names contain no `-`);
     (M2) `Denote.denoteTop … = .ok d → d = designOf inst` up to the `opt` / `kinetics` fields `Sat` does not
-    read (this is C01/C02's `system_preserves_design` for the object tables).  Both are *evaluated* by the
-    harness on the model's instance tree of every accepted generated program (`tables_ok`, `Des.designOf`)
-    and recorded as correspondence obligations; neither is proved here. -/
+    read (this is C01/C02's `system_preserves_design` for the object tables).  Neither is used by this
+    theorem; both are proved in section 5 (`blocksOk_of_load`, `designOf_sat_iff_of_load`), which closes the
+    GOAL as `des_equiv_of_load`.  The harness still evaluates both on the model's instance tree of every
+    accepted generated program (`tables_ok`, `Des.designOf`) as a cross-check. -/
 theorem des_equiv_partial (inst : Inst) (ok : BlocksOk (blocksInst inst)) (tbl : CodeTable)
     (hN : ∀ b, allows tbl 'N' b) (a : Var → Base) :
     (∃ a', (∀ v : Var, v.dom ∈ progDomains inst → a' v = a v) ∧ SatDes tbl (desDoc inst) a') ↔
@@ -240,11 +258,10 @@ theorem des_no_fewer_no_more_of_load {b : Bundle} (hb : DesNamesOk b) {fuel : Na
 
 /-- **`des_equiv` for instance trees (PARTIAL: M1 discharged, M2 a hypothesis).**  For every bundle satisfying
     `DesNamesOk`, every tree `loadFile` returns for it, every code table in which `N` allows every base and every
-    design `d` with the same solutions as the design of the tables (`hM2`; for the design `d` that
-    `Denote.denoteTop` assigns to the source this is C02's `system_preserves_design`, proved so far only as
-    `system_preserves_design_partial`): an assignment `a` of the program's own domain variables extends to the
-    signal and auxiliary sequences so as to satisfy the document **iff** it extends to the signal sequences so
-    as to satisfy `d`. -/
+    design `d` with the same solutions as the design of the tables (`hM2`): an assignment `a` of the program's
+    own domain variables extends to the signal and auxiliary sequences so as to satisfy the document **iff** it
+    extends to the signal sequences so as to satisfy `d`.  Missing w.r.t. the full statement: `hM2` for the design
+    the source denotes — supplied by `designOf_sat_iff_of_load`; the full statement is `des_equiv_of_load`. -/
 theorem des_equiv_of_load_partial {b : Bundle} (hb : DesNamesOk b) {fuel : Nat} {base : String} {args : Nat}
     {argKey pfx path : String} {includes : List String} {anon : Nat} {inst : Inst} {a' : Nat}
     (hload : Sys.loadFile b fuel base args argKey pfx path includes anon = .ok (inst, a')) (tbl : CodeTable)
@@ -256,6 +273,62 @@ theorem des_equiv_of_load_partial {b : Bundle} (hb : DesNamesOk b) {fuel : Nat} 
   constructor
   · rintro ⟨a'', h1, h2⟩; exact ⟨a'', h1, (hM2 a'').1 h2⟩
   · rintro ⟨a'', h1, h2⟩; exact ⟨a'', h1, (hM2 a'').2 h2⟩
+
+/-- **M2, discharged for instance trees of any depth**: for every bundle whose sources satisfy the names-only
+    hypotheses of C02 (`bundleNamesOk`: `UserNamesOk` for component sources; instance names without `-` and signal
+    names non-empty, not ending in `*`, without `-` for system sources) and every tree `loadFile` returns for it,
+    the specification `Denote.denoteFile` accepts the same sources, consuming the same anonymous-sequence numbers,
+    and — for every code table — an assignment satisfies the design read off the object tables **iff** it
+    satisfies the design `d` the *sources* denote. -/
+theorem designOf_sat_iff_of_load {b : Bundle} (hb : SysProofs.bundleNamesOk b = true) {fuel : Nat} {base : String}
+    {args : Nat} {argKey pfx path : String} {includes : List String} {anon : Nat} {inst : Inst} {a' : Nat}
+    (hload : Sys.loadFile b fuel base args argKey pfx path includes anon = .ok (inst, a')) :
+    ∃ d ports, Denote.denoteFile b fuel base args argKey pfx path includes anon = .ok (d, ports, a') ∧
+      ∀ (tbl : CodeTable) (asg : Var → Base), Des.Sat tbl (designOf inst) asg ↔ Des.Sat tbl d asg :=
+  DesSys.tree_sat_iff hb hload
+
+/-- **`des_equiv` (FULL).**  For every bundle of sources satisfying the name hypotheses `DesNamesOk` (M1) and
+    `bundleNamesOk` (M2), every program `Sys.loadFile` accepts for it — a component, a system, a system of systems
+    to any depth, any number of signals — with instance tree `inst`: the specification `Denote.denoteFile`
+    accepts the same sources and assigns them a design `d` (consuming the same anonymous-sequence numbers), and for
+    every code table in which `N` allows every base and every assignment `a` of the program's own domain
+    variables: `a` extends to the signal sequences `S` and the auxiliary sequences `S-_WC` so as to satisfy the
+    emitted `.des` document  **iff**  `a` extends to the signal sequences so as to satisfy the design `d` the
+    *source* denotes.  No hypothesis on the object tables (`BlocksOk` is `blocksOk_of_load`) and none relating the
+    tables to the source (`designOf_sat_iff_of_load`). -/
+theorem des_equiv_of_load {b : Bundle} (hb : DesNamesOk b) (hb2 : SysProofs.bundleNamesOk b = true) {fuel : Nat}
+    {base : String} {args : Nat} {argKey pfx path : String} {includes : List String} {anon : Nat} {inst : Inst}
+    {a' : Nat} (hload : Sys.loadFile b fuel base args argKey pfx path includes anon = .ok (inst, a')) :
+    ∃ d ports, Denote.denoteFile b fuel base args argKey pfx path includes anon = .ok (d, ports, a') ∧
+      ∀ (tbl : CodeTable), (∀ x, allows tbl 'N' x) → ∀ a : Var → Base,
+        (∃ a', (∀ v : Var, v.dom ∈ progDomains inst → a' v = a v) ∧ SatDes tbl (desDoc inst) a') ↔
+        (∃ a'', (∀ v : Var, v.dom ∈ progDomains inst → a'' v = a v) ∧ Des.Sat tbl d a'') := by
+  obtain ⟨d, ports, hd, hM2⟩ := designOf_sat_iff_of_load hb2 hload
+  exact ⟨d, ports, hd, fun tbl hN a => des_equiv_of_load_partial hb hload tbl hN d (hM2 tbl) a⟩
+
+/-- the same for a whole compilation unit, as the tool chain runs it (`entry` file, fuel 32, empty prefix): the
+    design is `Denote.denoteTop` of the sources -/
+theorem des_equiv_top {b : Bundle} (hb : DesNamesOk b) (hb2 : SysProofs.bundleNamesOk b = true) {entry : String}
+    {args : Nat} {includes : List String} {anon : Nat} {inst : Inst} {a' : Nat}
+    (hload : Sys.loadFile b 32 entry args "@" "" "." includes anon = .ok (inst, a')) :
+    ∃ d, Denote.denoteTop b entry args includes anon = .ok d ∧
+      ∀ (tbl : CodeTable), (∀ x, allows tbl 'N' x) → ∀ a : Var → Base,
+        (∃ a', (∀ v : Var, v.dom ∈ progDomains inst → a' v = a v) ∧ SatDes tbl (desDoc inst) a') ↔
+        (∃ a'', (∀ v : Var, v.dom ∈ progDomains inst → a'' v = a v) ∧ Des.Sat tbl d a'') := by
+  obtain ⟨d, ports, hd, h⟩ := des_equiv_of_load hb hb2 hload
+  refine ⟨d, ?_, h⟩
+  simp [Denote.denoteTop, hd, Except.map]
+
+/-- the two name hypotheses follow from one decidable check of the sources, `DesSys.desBundleOk`: every component
+    source has `UserNamesOk` and `PortsDistinct`, every system source `sysNamesOk` and `SysNamesOk` -/
+theorem des_equiv_of_load_checked {b : Bundle} (hb : DesSys.desBundleOk b = true) {fuel : Nat}
+    {base : String} {args : Nat} {argKey pfx path : String} {includes : List String} {anon : Nat} {inst : Inst}
+    {a' : Nat} (hload : Sys.loadFile b fuel base args argKey pfx path includes anon = .ok (inst, a')) :
+    ∃ d ports, Denote.denoteFile b fuel base args argKey pfx path includes anon = .ok (d, ports, a') ∧
+      ∀ (tbl : CodeTable), (∀ x, allows tbl 'N' x) → ∀ a : Var → Base,
+        (∃ a', (∀ v : Var, v.dom ∈ progDomains inst → a' v = a v) ∧ SatDes tbl (desDoc inst) a') ↔
+        (∃ a'', (∀ v : Var, v.dom ∈ progDomains inst → a'' v = a v) ∧ Des.Sat tbl d a'') :=
+  des_equiv_of_load (DesSys.desBundleOk_names hb) (DesSys.desBundleOk_bundle hb) hload
 
 end of_load
 
@@ -318,6 +391,14 @@ example : LoadInv.StmtNamesOk exTSrc = true ∧ LoadInv.PortsDistinct exTSrc = t
 example : (Comp.load exTSrc 0 "a-" 0).toOption.map (fun r => compDoc r.1) =
     some (compDoc (exComp "a-" ⟨['1'], []⟩)) := by decide +kernel
 example : UserNamesOk exTSrc = true ∧ CodesOk Generated.dnaTable exTSrc = true := by decide +kernel
+/-- the hypothesis of `des_equiv_of_load_checked` (hence both hypotheses of `des_equiv_of_load`) holds for the
+    bundle of these sources -/
+def exBundle : Bundle :=
+  { files := [("top.sys@", .sys exTopSrc), ("T.comp@a", .comp exTSrc), ("T.comp@b", .comp exTSrc)],
+    exists_ := ["top.sys", "T.comp"] }
+example : DesSys.desBundleOk exBundle = true := by decide +kernel
+example : LoadInv.DesNamesOk exBundle ∧ SysProofs.bundleNamesOk exBundle = true :=
+  ⟨DesSys.desBundleOk_names (by decide +kernel), DesSys.desBundleOk_bundle (by decide +kernel)⟩
 /-- … and they are needed: a dash in an instance name, a signal named like an instance -/
 example : LoadInv.SysNamesOk { exTopSrc with stmts := [.component "a-b" "T" 0 [] []] } = false := by decide
 example : LoadInv.SysNamesOk { exTopSrc with stmts := [.component "q" "T" 0 [] [⟨"q", false⟩]] } = false := by decide
